@@ -899,3 +899,22 @@ func termSize(roots []*Term) int {
 	}
 	return len(seen)
 }
+
+func termStr(t *Term, depth int) string {
+	if depth == 0 {
+		return fmt.Sprintf("#%d", t.id)
+	}
+	switch t.op {
+	case "true", "false":
+		return t.op
+	case "bv":
+		return fmt.Sprintf("%d", t.val)
+	case "var":
+		return t.name
+	}
+	var as []string
+	for _, a := range t.args {
+		as = append(as, termStr(a, depth-1))
+	}
+	return "(" + t.op + " " + strings.Join(as, " ") + ")"
+}
